@@ -84,6 +84,24 @@ def gen_cases(tier, seed):
                 s['seed'] = rng.randrange(1 << 30)
                 s['plan'] = {'faults': [{'at': at, 'phase': ph, 'kind': 'retry500', 'tag': 'FAULT-retry'}]}
                 cases.append(s)
+    # two steps: the transfer is cancelled (or a part fails) while requests are held in flight, and THEN the submission itself fails
+    # (the stream being read on the submission thread raises - e.g. it was closed after the cancel): the abort still has to wait
+    # for everything in flight, and an upload whose create request is still out must not be forgotten
+    for i in range(80 if quick else 800):
+        src = rng.choice(['nonseekable', 'seekable'])
+        cfg = dict(multipart_threshold=8, multipart_chunksize=8, max_request_concurrency=rng.choice([1, 2, 3]), max_submission_concurrency=1,
+                   max_in_memory_upload_chunks=rng.choice([1, 2, 3]))
+        s = {'min_part': 8, 'config': cfg, 'seed': rng.randrange(1 << 30), 'family': 'two-step',
+             'transfers': [{'kind': 'upload', 'src': src, 'size': rng.choice([33, 41, 57])}]}
+        first = rng.choice(['t0/s3:CreateMultipartUpload#0', 't0/s3:UploadPart:1#0', 't0/s3:UploadPart:2#0'])
+        plan = {'gate': {'match': rng.choice(['/s3:', '/s3:UploadPart', '/s3:CreateMultipartUpload']), 'phase': rng.choice(['before', 'after']), 'policy': 'seeded'},
+                'faults': [{'at': f't0/src:read#{rng.randrange(1, 7)}', 'phase': rng.choice(['before', 'after']), 'kind': 'exc', 'tag': 'FAULT-src'}]}
+        if rng.random() < 0.6:
+            plan['cancel'] = {'at': first, 'phase': rng.choice(['before', 'after']), 'how': 'future.cancel', 'from': rng.choice(['event', 'main'])}
+        else:
+            plan['faults'].append({'at': first, 'phase': rng.choice(['before', 'after']), 'kind': 'exc', 'tag': 'FAULT-req'})
+        s['plan'] = plan
+        cases.append(s)
     # a thread preempted at each statement of the announce / cleanup / task-completion code (until the others have run as far
     # as they can) while a multipart transfer fails or is cancelled: result() must not be able to return before the abort
     from .. import windows
